@@ -697,6 +697,11 @@ func multiInstanceDocs() [][2]string {
 		}
 		add(fmt.Sprintf("late-path-faults-%d", n), body)
 	}
+	// a description of several lines under the other line-end conventions (C03 compiles every
+	// document twice from ONE file object: the caller's bytes stay as they are)
+	for _, nl := range []string{"\r\n", "\r"} {
+		out = append(out, [2]string{fmt.Sprintf("description-lines-%q", nl), strings.ReplaceAll("JSIGHT 0.3\nINFO\n  Title \"T\"\n  Description\n    line one\n      line two\n    line three\n    line four\nGET /d\n  Description\n    a\n    b\n    c\n  200 any\n", "\n", nl)})
+	}
 	// lists with repetitions: every Tags list of length 2..4 over three declared tags that names some
 	// tag twice, at every level that takes a list (method, URL, JSON-RPC method); and the same for
 	// allOf lists and or lists of types
